@@ -354,6 +354,9 @@ def run_multi_session(ctx: Ctx, versions: list[tuple[int, int]]) -> None:
 
 
 def shard(ctx: Ctx) -> None:
+    from vf.sim import device as _device
+
+    _device.AUTO_ROTATE = True   # chunking of the device's stream rotates: as written / replies coalesced / cut into 1..8-byte pieces
     if ctx.shard < 6:
         orders = [[(1, 2), (1, 10), (1, 0), (1, 5), (1, 4), (2, 0)], [(1, 10), (1, 2), (1, 10)], [(1, 0), (1, 1), (1, 0)], [(1, 4), (1, 5), (1, 4), (2, 1)],
                   [(2, 0), (1, 2), (2, 5), (1, 3)], [(1, 3), (1, 2), (1, 3), (1, 2)]]
